@@ -67,25 +67,62 @@ macro_rules! pair {
 }
 pub(crate) use pair;
 
-struct Compiled;
+pub struct Compiled {
+    instants: Vec<i128>,
+    zones: Vec<String>,
+    cals: Vec<&'static str>,
+}
+
+impl Compiled {
+    /// quick: the hand-picked alphabets above; thorough: every 16th Zone/Link name of tzdata.zi next to them,
+    /// 37 more instants (hourly across New York's 2021 changes, Lord Howe's half-hour change, month starts of
+    /// 2024 with distinct sub-second fields, 1883 and 2100) and three more calendars.
+    pub fn new(tier: Tier) -> Self {
+        let mut instants = INSTANTS.to_vec();
+        let mut zones: Vec<String> = ZONES.iter().map(|s| s.to_string()).collect();
+        let mut cals = CALS.to_vec();
+        if tier == Tier::Thorough {
+            for k in -4i128..=4 {
+                instants.push(1_636_264_800_000_000_000 + k * 3_600_000_000_000 + 7_008_009_010); // 2021-11-07T06:00Z +- 4 h
+                instants.push(1_615_705_200_000_000_000 + k * 3_600_000_000_000 + 59_999_999_999); // 2021-03-14T07:00Z +- 4 h
+            }
+            for k in -2i128..=2 {
+                instants.push(1_617_463_800_000_000_000 + k * 1_800_000_000_000 + 1); // Lord Howe 2021-04-03T15:30Z +- 1 h
+            }
+            for m in 0..12i128 {
+                instants.push(1_704_067_200_000_000_000 + m * 2_629_800_000_000_000 + (m + 1) * 1_001_001_001);
+            }
+            instants.push(-2_717_640_000_000_000_000 + 123); // 1883-11-18, the day of the US railway time change
+            instants.push(4_102_444_800_000_000_000 + 999_999_999); // 2100-01-01
+            let all = crate::checks::c15::zone_names();
+            for (k, z) in all.iter().enumerate() {
+                if k % 16 == 5 && !zones.contains(z) && TimeZone::try_from_str(z).is_ok() {
+                    zones.push(z.clone());
+                }
+            }
+            cals.extend(["hebrew", "islamic-civil", "ethiopic"]);
+        }
+        Compiled { instants, zones, cals }
+    }
+}
 
 impl Space for Compiled {
     fn name(&self) -> String {
         "c19.compiled_wrappers".into()
     }
     fn len(&self) -> u64 {
-        (INSTANTS.len() * ZONES.len() * CALS.len()) as u64
+        (self.instants.len() * self.zones.len() * self.cals.len()) as u64
     }
     fn block(&self) -> u64 {
         1
     }
     fn eval(&self, i: u64, out: &mut Out) {
-        let ix = unrank(i, &[INSTANTS.len() as u64, ZONES.len() as u64, CALS.len() as u64]);
-        let (t, zone, cal) = (INSTANTS[ix[0]], ZONES[ix[1]], CALS[ix[2]]);
+        let ix = unrank(i, &[self.instants.len() as u64, self.zones.len() as u64, self.cals.len() as u64]);
+        let (t, zone, cal) = (self.instants[ix[0]], self.zones[ix[1]].as_str(), self.cals[ix[2]]);
         let tz = TimeZone::try_from_str(zone).expect("zone");
         let calendar: Calendar = cal.parse().expect("calendar");
         let z = ZonedDateTime::try_new(t, calendar.clone(), tz.clone()).expect("zdt");
-        let z2 = ZonedDateTime::try_new(INSTANTS[(ix[0] + 1) % INSTANTS.len()], calendar.clone(), tz.clone()).expect("zdt");
+        let z2 = ZonedDateTime::try_new(self.instants[(ix[0] + 1) % self.instants.len()], calendar.clone(), tz.clone()).expect("zdt");
         let p = FsTzdbProvider::default();
         let attrs = || vec![("instant", t.to_string()), ("zone", zone.to_string()), ("calendar", cal.to_string())];
         let mut names: BTreeSet<String> = BTreeSet::new();
@@ -289,13 +326,13 @@ impl Space for Compiled {
         }
     }
     fn describe(&self) -> serde_json::Value {
-        json!({"instants": INSTANTS.len(), "zones": ZONES, "calendars": CALS})
+        json!({"instants": self.instants.len(), "zones": self.zones.len(), "zone_names": self.zones, "calendars": self.cals})
     }
 }
 
-pub fn spaces(_env: &Env) -> Vec<Box<dyn Space>> {
-    let mut v: Vec<Box<dyn Space>> = vec![Box::new(Compiled)];
-    v.extend(crate::checks::c19_ffi::spaces());
+pub fn spaces(env: &Env) -> Vec<Box<dyn Space>> {
+    let mut v: Vec<Box<dyn Space>> = vec![Box::new(Compiled::new(env.tier))];
+    v.extend(crate::checks::c19_ffi::spaces(env.tier));
     v
 }
 
@@ -306,8 +343,8 @@ pub fn run(env: &Env) -> i32 {
         "pairwise differential over programs: every compiled-data wrapper is called next to its *_with_provider twin (fresh FsTzdbProvider) and every temporal_capi function next to the temporal_rs method it names, on receivers with pairwise distinct field values x zones x calendars x small argument alphabets; results compared through complete snapshots (all getters), errors by kind",
     );
     rep.assumptions.push("the core methods are the reference (their own correctness is C01-C18's subject); inputs on which the core itself panics are not judged here; Now::* are sandwiched between two core readings of the clock".into());
-    rep.run(&Compiled);
-    for s in crate::checks::c19_ffi::spaces() {
+    rep.run(&Compiled::new(env.tier));
+    for s in crate::checks::c19_ffi::spaces(env.tier) {
         rep.run(s.as_ref());
     }
     rep.extra.insert("exhaustive".into(), json!(true));
